@@ -1,0 +1,83 @@
+//go:build verif
+
+// Contracts for package gcetcbendorsement, checked by /verif (govc). Comment-only; compiled only under
+// -tags verif.
+package gcetcbendorsement
+
+//@ func allowBytes
+//@   ensures[C17] result == (len(pbytes) == 0 || val(sbytes) == val(pbytes))
+//@   assigns nothing
+
+//@ func policyModificationAllowed
+//@   requires sev != nil && opts != nil
+//@   ensures[C17] err == nil && policy != nil && policy.Policy != 0 ==> policy.Policy == sev.Policy
+//@   ensures[C17] err == nil && policy != nil && opts.LaunchVmsas != 0 && len(policy.Measurement) != 0 ==> val(sev.Measurements[opts.LaunchVmsas]) == val(policy.Measurement)
+//@   assigns nothing
+
+//@ func modifyPolicy
+//@   requires sev != nil && policy != nil && opts != nil
+//@   requires ref(policy.TrustedIdKeys) == 0 || ref(policy.TrustedIdKeys) != ref(policy.TrustedAuthorKeys)
+//@   sweep[C07]
+//@   assigns[C17] policy.Policy, policy.Measurement, policy.TrustedIdKeys, policy.TrustedAuthorKeys, policy.TrustedIdKeys[*], policy.TrustedAuthorKeys[*]
+//@   ensures[C17] err == nil && old(policy.Policy) != 0 && !opts.Overwrite ==> old(policy.Policy) == sev.Policy
+//@   ensures[C17] err == nil && old(policy.Policy) != 0 ==> policy.Policy == old(policy.Policy)
+//@   ensures[C17] err == nil && old(policy.Policy) == 0 ==> policy.Policy == sev.Policy
+//@   ensures[C17,C02] err == nil && opts.LaunchVmsas != 0 ==> has(sev.Measurements, opts.LaunchVmsas) && val(policy.Measurement) == val(sev.Measurements[opts.LaunchVmsas])
+//@   ensures[C17] err == nil && !opts.Overwrite && opts.LaunchVmsas != 0 && old(len(policy.Measurement)) != 0 ==> val(policy.Measurement) == old(val(policy.Measurement))
+//@   ensures[C17] err == nil && opts.LaunchVmsas == 0 ==> opts.AllowUnspecifiedVmsas && unchanged(policy.Measurement)
+//@   ensures[C17] err == nil && !opts.Overwrite && policy.MinimumGuestSvn != 0 ==> sev.Svn >= policy.MinimumGuestSvn
+//@   ensures[C17] err == nil && len(sev.CaBundle) == 0 ==> unchanged(policy.TrustedIdKeys) && unchanged(policy.TrustedAuthorKeys)
+//@   ensures[C17] err == nil && len(sev.CaBundle) != 0 ==> pemOK(val(sev.CaBundle)) && pemType(val(sev.CaBundle)) == "CERTIFICATE" && len(policy.TrustedIdKeys) == old(len(policy.TrustedIdKeys)) + 1 && val(policy.TrustedIdKeys[old(len(policy.TrustedIdKeys))]) == pemBytes(val(sev.CaBundle))
+//@   ensures[C17] err == nil ==> forall(i, 0 <= i && i < old(len(policy.TrustedIdKeys)) ==> val(policy.TrustedIdKeys[i]) == old(val(policy.TrustedIdKeys[i])))
+//@   ensures[C17] err == nil ==> forall(i, 0 <= i && i < old(len(policy.TrustedAuthorKeys)) ==> val(policy.TrustedAuthorKeys[i]) == old(val(policy.TrustedAuthorKeys[i])))
+
+//@ func SevPolicy
+//@   requires opts != nil && endorsement != nil
+//@   sweep[C07]
+//@   assigns[C17] nothing
+//@   ensures[C17] err == nil ==> result != nil && fresh(result)
+//@   ensures[C17] err == nil && opts.Base != nil ==> result.MinimumGuestSvn == opts.Base.MinimumGuestSvn && result.MinimumTcb == opts.Base.MinimumTcb && result.MinimumLaunchTcb == opts.Base.MinimumLaunchTcb && result.RequireAuthorKey == opts.Base.RequireAuthorKey && result.MinimumBuild == opts.Base.MinimumBuild && result.MinimumVersion == opts.Base.MinimumVersion && result.PermitProvisionalFirmware == opts.Base.PermitProvisionalFirmware && result.RequireIdBlock == opts.Base.RequireIdBlock
+//@   ensures[C17] err == nil && opts.Base != nil ==> val(result.FamilyId) == val(opts.Base.FamilyId) && val(result.ImageId) == val(opts.Base.ImageId) && val(result.ReportData) == val(opts.Base.ReportData) && val(result.HostData) == val(opts.Base.HostData) && val(result.ReportId) == val(opts.Base.ReportId) && val(result.ReportIdMa) == val(opts.Base.ReportIdMa) && val(result.ChipId) == val(opts.Base.ChipId)
+//@   ensures[C17] err == nil && opts.Base != nil ==> len(result.TrustedAuthorKeyHashes) == len(opts.Base.TrustedAuthorKeyHashes) && len(result.TrustedIdKeyHashes) == len(opts.Base.TrustedIdKeyHashes)
+//@   ensures[C17] err == nil && opts.Base != nil && opts.Base.Policy != 0 ==> result.Policy == opts.Base.Policy
+//@   ensures[C17] err == nil && opts.Base != nil && !opts.Overwrite && len(opts.Base.Measurement) != 0 && opts.LaunchVmsas != 0 ==> val(result.Measurement) == val(opts.Base.Measurement)
+//@   ensures[C17] err == nil && opts.Base != nil && opts.LaunchVmsas == 0 ==> val(result.Measurement) == val(opts.Base.Measurement)
+//@   ensures[C17] err == nil && opts.Base != nil && !opts.Overwrite && opts.Base.MinimumGuestSvn != 0 ==> exists(g, *epb.VMGoldenMeasurement, g != nil && pbok[g] && pbsrc[g] == val(endorsement.SerializedUefiGolden) && g.SevSnp != nil && g.SevSnp.Svn >= opts.Base.MinimumGuestSvn, golden)
+//@   ensures[C02,C17] err == nil && opts.LaunchVmsas != 0 ==> exists(g, *epb.VMGoldenMeasurement, g != nil && pbok[g] && pbsrc[g] == val(endorsement.SerializedUefiGolden) && g.SevSnp != nil && has(g.SevSnp.Measurements, opts.LaunchVmsas) && val(result.Measurement) == val(g.SevSnp.Measurements[opts.LaunchVmsas]), golden)
+//@   ensures[C17] err == nil && (opts.Base == nil || opts.Base.Policy == 0) ==> exists(g, *epb.VMGoldenMeasurement, g != nil && pbok[g] && pbsrc[g] == val(endorsement.SerializedUefiGolden) && g.SevSnp != nil && (result.Policy == g.SevSnp.Policy || opts.Base == nil), golden)
+//@   ensures[C17] err == nil && opts.Base != nil ==> len(result.TrustedIdKeys) >= len(opts.Base.TrustedIdKeys)
+
+//@ func modifyTdxPolicy
+//@   requires tdxpolicy != nil && opts != nil
+//@   assigns[C17] tdxpolicy.TdQuoteBodyPolicy, tdxpolicy.TdQuoteBodyPolicy.AnyMrTd
+//@   ensures[C17] err == nil && !opts.Overwrite && old(tdxpolicy.TdQuoteBodyPolicy) != nil ==> old(tdxpolicy.TdQuoteBodyPolicy.AnyMrTd) == nil
+//@   ensures[C17] err == nil && old(tdxpolicy.TdQuoteBodyPolicy) != nil ==> unchanged(tdxpolicy.TdQuoteBodyPolicy)
+//@   ensures[C17,C02] err == nil ==> tdxpolicy.TdQuoteBodyPolicy != nil && same(tdxpolicy.TdQuoteBodyPolicy.AnyMrTd, mrtds)
+//@   ensures[C17] err != nil ==> unchanged(tdxpolicy.TdQuoteBodyPolicy)
+
+//@ func TdxPolicy
+//@   requires opts != nil && endorsement != nil
+//@   sweep[C07]
+//@   assigns[C17] nothing
+//@   ensures[C17] err == nil ==> result != nil && fresh(result) && result.TdQuoteBodyPolicy != nil && (opts.Base == nil || opts.Base.TdQuoteBodyPolicy == nil || fresh(result.TdQuoteBodyPolicy))
+//@   ensures[C17] err == nil && !opts.Overwrite && opts.Base != nil && opts.Base.TdQuoteBodyPolicy != nil ==> opts.Base.TdQuoteBodyPolicy.AnyMrTd == nil
+//@   ensures[C17] err == nil && opts.Base != nil && opts.Base.TdQuoteBodyPolicy != nil ==> val(result.TdQuoteBodyPolicy.MrSeam) == val(opts.Base.TdQuoteBodyPolicy.MrSeam) && val(result.TdQuoteBodyPolicy.TdAttributes) == val(opts.Base.TdQuoteBodyPolicy.TdAttributes) && val(result.TdQuoteBodyPolicy.Xfam) == val(opts.Base.TdQuoteBodyPolicy.Xfam) && val(result.TdQuoteBodyPolicy.MrTd) == val(opts.Base.TdQuoteBodyPolicy.MrTd) && val(result.TdQuoteBodyPolicy.MrConfigId) == val(opts.Base.TdQuoteBodyPolicy.MrConfigId) && val(result.TdQuoteBodyPolicy.MrOwner) == val(opts.Base.TdQuoteBodyPolicy.MrOwner) && val(result.TdQuoteBodyPolicy.MrOwnerConfig) == val(opts.Base.TdQuoteBodyPolicy.MrOwnerConfig) && val(result.TdQuoteBodyPolicy.ReportData) == val(opts.Base.TdQuoteBodyPolicy.ReportData) && val(result.TdQuoteBodyPolicy.MinimumTeeTcbSvn) == val(opts.Base.TdQuoteBodyPolicy.MinimumTeeTcbSvn) && len(result.TdQuoteBodyPolicy.Rtmrs) == len(opts.Base.TdQuoteBodyPolicy.Rtmrs)
+//@   ensures[C02] err == nil ==> len(result.TdQuoteBodyPolicy.AnyMrTd) > 0
+//@   ghostparam k Int
+//@   ensures[C02,C17] err == nil && 0 <= k && k < len(result.TdQuoteBodyPolicy.AnyMrTd) ==> exists(g, *epb.VMGoldenMeasurement, g != nil && pbok[g] && pbsrc[g] == val(endorsement.SerializedUefiGolden) && g.Tdx != nil && exists(j, 0 <= j && j < len(g.Tdx.Measurements) && tdxRow(g.Tdx.Measurements[j], result.TdQuoteBodyPolicy.AnyMrTd[k], opts.RAMGiB)), golden)
+//@   loop 1 invariant golden != nil && pbok[golden] && golden.Tdx != nil && (ref(mrtds) == 0 || fresh(mrtds))
+//@   loop 1 invariant 0 <= k && k < len(mrtds) ==> exists(j, 0 <= j && j < len(golden.Tdx.Measurements) && tdxRow(golden.Tdx.Measurements[j], mrtds[k], opts.RAMGiB))
+
+//@ func SevValidate
+//@   requires opts != nil && attestation != nil
+//@   sweep[C07]
+//@   ensures[C01] err == nil ==> vfFn != nil && vfRoots == opts.RootsOfTrust && vfNow == opts.Now
+//@   ensures[C01] err == nil && opts.Endorsement != nil ==> vfEndorsement == opts.Endorsement
+//@   ensures[C01] err == nil ==> vfEndorsement != nil
+//@   ensures[C02] err == nil ==> vfVmsas == opts.ExpectedLaunchVmsas
+
+//@ func TdxValidate
+//@   requires opts != nil
+//@   sweep[C07]
+//@   ensures[C01] err == nil && opts.Endorsement != nil ==> authentic(val(opts.Endorsement.SerializedUefiGolden), val(opts.Endorsement.Signature), opts.RootsOfTrust, opts.Now)
+//@   ensures[C01] err == nil ==> exists(e, *epb.VMLaunchEndorsement, e != nil && authentic(val(e.SerializedUefiGolden), val(e.Signature), opts.RootsOfTrust, opts.Now), endorsement)
